@@ -12,7 +12,7 @@ SeqS = z3.DeclareSort("SeqId")
 at = z3.Function("at", SeqS, z3.IntSort(), E)
 FOLD = z3.Function("FOLD", SeqS, z3.IntSort(), E)  # FOLD(s, n), n >= 1
 FROM = z3.Function("FOLDFROM", SeqS, z3.IntSort(), z3.IntSort(), E)  # s(a)·…·s(a+b-1), b >= 1
-AX = ["L7: composition of step-compatible factors is associative -- no longer an axiom: lemma compose.L7_composition_is_associative derives it from the semiring axioms (one joint state index; several state variables as one index on paper)"]
+AX = ["L7: composition of step-compatible factors is associative -- no longer an axiom: lemma compose.L7_composition_is_associative derives it from the semiring axioms (one joint state index; two state variables reduce to it by lemma compose.joint_index_of_two_state_variables, more than two by repeating that step on paper)"]
 
 
 def assoc(*terms):
